@@ -57,7 +57,8 @@ G1a_2(z) == {G1aCase(e, sh, FALSE) : e \in Exprs2, sh \in {"named", "vunnamed"}}
 
 (* G1b: one generic definition D<T,U> with two fields, two instantiations used by a root *)
 FieldExprsB == {T, U, u8, P_Vec(T), P_Opt(U), P_Tup(<<T, U>>), P_Arr(T, 2), P_Box(T), P_Vec(P_Opt(T)), P_Phantom(T), P_Phantom(U),
-                P_BTreeMap(T, U), P_Adt("G", <<T>>), P_Res(T, U), P_Compact(u32), P_Vec(u16), P_Cow(T), P_Compact(T), P_Vec(P_Compact(U))}
+                P_BTreeMap(T, U), P_Adt("G", <<T>>), P_Res(T, U), P_Compact(u32), P_Vec(u16), P_Cow(T), P_Compact(T), P_Vec(P_Compact(U)),
+                P_Tup(<<P_Vec(T), u32>>), P_Vec(P_Tup(<<u8, P_Opt(U)>>)), P_Tup(<<u64, P_Arr(T, 2)>>)}
 ArgPairs == {<<u8, bool>>, <<u16, u8>>, <<bool, bool>>, <<P_Vec(u8), u32>>, <<A0("U"), str>>}
 G1bDef(e1, e2, kind) ==
   IF kind = "struct" THEN Struct("D", Mod, <<Param("T"), Param("U")>>, <<SField("a", e1), SField("b", e2)>>)
@@ -136,7 +137,7 @@ G8Defs == <<
   Struct("PhT", Mod, <<Param("T")>>, <<SField("n", u8), SField("p", P_Phantom(T))>>),
   Struct("Un", Mod, <<>>, <<SField("u", i8)>>) >> \o <<UserG>>
 G8Prog == Program(G8Defs, <<>>)
-G8Roots == {<<A0("R"), A0("Un")>>, <<A0("Un"), A0("W")>>, <<A0("Z"), A0("Un"), P_Adt("G", <<A0("V")>>), P_Adt("G", <<A0("Q")>>)>>}
+G8Roots == {<<A0("R"), A0("Un")>>, <<A0("R"), P_Adt("G", <<A0("Q")>>), A0("W")>>, <<A0("Un"), A0("W")>>, <<A0("Z"), A0("Un"), P_Adt("G", <<A0("V")>>), P_Adt("G", <<A0("Q")>>)>>}
 G8(z) == {[fam |-> "G8", prog |-> G8Prog, roots |-> r] : r \in G8Roots}
 \* CompactAs eligibility: single-field wrappers over every primitive, named / unnamed / boxed / compact / two fields / enum
 G8bDefs(p) == <<Struct("Wn", Mod, <<>>, <<SField("v", p)>>), Struct("Wu", Mod, <<>>, <<SField("", p)>>), Struct("Wb", Mod, <<>>, <<SField("v", P_Box(p))>>),
@@ -198,6 +199,16 @@ G2Shapes(z) == {[fam |-> "G2s", prog |-> ShapeProg(q[1], f, q[2], f), roots |-> 
                   : q \in {x \in ShapePool \X ShapePool : x[1] # x[2]}, f \in {"n", "v"}}
                \cup {[fam |-> "G2s", prog |-> ShapeProg(e, "n", e, "c"), roots |-> <<A0("FooS_n_" \o Render(e)), A0("FooS_c_" \o Render(e))>>] : e \in {u8, u16}}
                \cup {[fam |-> "G2s", prog |-> ShapeProg(e, "n", e, "u"), roots |-> <<A0("FooS_n_" \o Render(e)), A0("FooS_u_" \o Render(e))>>] : e \in {u8, P_Vec(u8)}}
+
+\* families whose shared name already ends in a digit (new names are old name + 1..k all the same)
+DigitDefs == <<Versioned(Struct("SlotA", Mod, <<>>, <<SField("a", u8)>>), "Slot2"), Versioned(Struct("SlotB", Mod, <<>>, <<SField("a", u16)>>), "Slot2"),
+               Versioned(Struct("SlotC", Mod, <<>>, <<SField("a", bool)>>), "Slot2"), Versioned(Struct("SlotD", Mod, <<>>, <<SField("a", u8)>>), "Slot2"),
+               Versioned(Struct("VerA", Mod \o <<"v">>, <<>>, <<SField("", u8)>>), "Version1"), Versioned(Struct("VerB", Mod \o <<"v">>, <<>>, <<SField("", str)>>), "Version1"),
+               Struct("Slot21", Mod, <<>>, <<SField("z", i8)>>)>>
+DigitProg == Program(DigitDefs, <<>>)
+G2Digits(z) == {[fam |-> "G2d", prog |-> DigitProg, roots |-> r] :
+                  r \in {<<A0("SlotA"), A0("SlotB"), A0("SlotC")>>, <<A0("SlotB"), A0("SlotA"), A0("SlotD"), A0("SlotC")>>, <<A0("VerA"), A0("SlotA"), A0("VerB"), A0("SlotC")>>,
+                          <<A0("VerB"), A0("VerA")>>, <<A0("SlotA"), A0("SlotB"), A0("Slot21")>>}}
 
 G2Prog == Program(G2Defs, <<CfgC1, CfgC2>>)
 G2Members == {P_Adt("FooG", <<u8>>), P_Adt("FooG", <<u16>>), P_Adt("FooG", <<bool>>), A0("FooC8"), A0("FooC16"),
